@@ -218,9 +218,10 @@ def r2_cache_key(ctx):
                         and "tuple" in norm(c.args[1]) for c in ast.walk(grf))
     c = compared.get("training_set")
     if accepts_tuple and c is not None:
-        ctx.fail(c[2], f"{Rq.text(c[2])} with array-valued training sets",
+        ctx.fail(c[2], "cached training_set compared by ==/!= with "
+                 "array-valued training sets",
                  "get_rater accepts an in-memory training set (X, y), but "
-                 "the cache test compares training sets with `!=`: for two "
+                 "the cache test compares training sets with `==`/`!=`: for two "
                  "different array tuples this raises ValueError (truth "
                  "value of an array), so rate_quality raises instead of "
                  "re-rating")
